@@ -30,23 +30,24 @@ H(t) == IF t \in {"start", "end"} THEN 36 ELSE IF t = "subProcess" THEN 100 ELSE
 VARIABLES procs,    \* sequence of finished processes, each a sequence of [type, preset]
           cur,      \* activities added to the process under construction
           cfg,      \* layout configuration (of the LAST AutoLayout call, made before Out)
-          early     \* AutoLayout calls made earlier on the same definitions builder:
+          early,    \* AutoLayout calls made earlier on the same definitions builder:
                     \* sequence of [n |-> processes added so far, c |-> configuration]
-vars == <<procs, cur, cfg, early>>
+          reuse     \* one ProcessBuilder is used for all processes (Out starts the next one)
+vars == <<procs, cur, cfg, early, reuse>>
 
 ASSUME TypeSet \subseteq Types
-Init == procs = <<>> /\ cur = <<>> /\ cfg \in Configs /\ early = <<>>
+Init == procs = <<>> /\ cur = <<>> /\ cfg \in Configs /\ early = <<>> /\ reuse \in BOOLEAN
 
 AddActivity == /\ Len(cur) < MaxActs /\ Len(procs) < MaxProcs
                /\ \E t \in TypeSet, pre \in PresetSet : cur' = Append(cur, [type |-> t, preset |-> pre])
-               /\ UNCHANGED <<procs, cfg, early>>
+               /\ UNCHANGED <<procs, cfg, early, reuse>>
 OutProcess == /\ Len(procs) < MaxProcs
-              /\ procs' = Append(procs, cur) /\ cur' = <<>> /\ UNCHANGED <<cfg, early>>
+              /\ procs' = Append(procs, cur) /\ cur' = <<>> /\ UNCHANGED <<cfg, early, reuse>>
 \* the definitions builder is laid out now and (with whatever is added meanwhile) again later:
 \* a layout REPLACES the diagram, so only the last call shows in the result
 EarlyLayout == /\ cur = <<>> /\ Len(procs) >= 1 /\ Len(early) < MaxEarly
                /\ \E c \in Configs : early' = Append(early, [n |-> Len(procs), c |-> c])
-               /\ UNCHANGED <<procs, cur, cfg>>
+               /\ UNCHANGED <<procs, cur, cfg, reuse>>
 Next == AddActivity \/ OutProcess \/ EarlyLayout
 Spec == Init /\ [][Next]_vars
 
@@ -84,6 +85,7 @@ ASSUME TLCSet(1, <<>>)
 Build(ps) ==
   [cfg |-> cfg,
    early |-> early,
+   reuse |-> reuse,
    procs |-> [i \in DOMAIN ps |->
       [acts |-> ps[i],
        shapes |-> [k \in DOMAIN NodeTypes(ps[i]) |-> Shape(ps, i, k)]]]]
